@@ -42,6 +42,12 @@ LITERALS = {
     "lit_amp": "'amp & here'",
     "lit_mix": "'a, b+c=d) e'",
     "lit_gap": "'a" + " " * 44 + "b'",
+    # The other kind of quote inside a literal is an ordinary character; an
+    # odd number of them must not confuse whoever tracks character context.
+    "lit_oq": "\"Don't\"",
+    "lit_oq_bang": "\"Don't panic! now\"",
+    "lit_oq_amp": "'say \"hi & bye'",
+    "lit_oq_even": "'a \"quoted\" word'",
 }
 
 
@@ -101,7 +107,7 @@ def item(kind, idx):
 # ---------------------------------------------------------------------------
 IDS = ["s", "m", "l"]
 LITS = ["lit_sp", "lit_q", "lit_dq", "lit_bang", "lit_amp", "lit_mix",
-        "lit_gap"]
+        "lit_gap", "lit_oq", "lit_oq_bang", "lit_oq_amp", "lit_oq_even"]
 TAILS = {
     "t0": "",
     "t1": " ! c",
